@@ -139,9 +139,12 @@ def _pool_side(mr, ev, want):
             r = p.apply_async(W.val, ('j',))
             idle = [x for x in p._pool if x.state == 'idle']
             w.w_take(idle[0])
+            untracked = nd.flag()
+            if untracked:
+                r.discard()          # the caller gave the job up before its acceptance was read: a worker accepted a job all the same
             w.drain_results()
             if p.restart_state.R != 0:
-                return fail('C11:pool:acceptance-did-not-reset-the-count')
+                return fail('C11:pool:acceptance-did-not-reset-the-count' + (':job-no-longer-tracked' if untracked else ''))
             w.w_done(idle[0])
             w.drain_results()
     return True
